@@ -58,7 +58,7 @@ pub fn stretched(seq: &[u8], min_len: usize) -> Vec<u8> {
 }
 
 pub fn min_len_strategy() -> BoxedStrategy<usize> {
-    prop_oneof![40 => Just(0usize), 3 => Just(600usize), 2 => Just(5_000usize), 1 => Just(70_000usize)].boxed()
+    prop_oneof![120 => Just(0usize), 9 => Just(600usize), 4 => Just(5_000usize), 1 => Just(70_000usize)].boxed()
 }
 
 thread_local! {
@@ -251,7 +251,7 @@ fn file_strategy(tier: Tier, cli: bool) -> BoxedStrategy<FileCase> {
                 nuc_only: false,
             };
             let writer = if mmap && norm { Writer::Mmap } else { Writer::Batch };
-            (gen::records(p), prop_oneof![12 => Just(None), 2 => (any::<u16>(), Just(600usize)).prop_map(Some), 1 => (any::<u16>(), Just(5_000usize)).prop_map(Some), 1 => (any::<u16>(), Just(70_000usize)).prop_map(Some)])
+            (gen::records(p), prop_oneof![40 => Just(None), 6 => (any::<u16>(), Just(600usize)).prop_map(Some), 3 => (any::<u16>(), Just(5_000usize)).prop_map(Some), 1 => (any::<u16>(), Just(70_000usize)).prop_map(Some)])
                 .prop_map(move |(recs, stretch)| FileCase { recs, k, norm, writer, delim: delim.to_string(), threads, header, stretch })
         })
         .boxed()
